@@ -20,7 +20,10 @@ RULE = ("for each initial content (fixed set + seeded random compositions of the
         "{ENOSPC, EIO, EDQUOT} with that call failing; and once per size limit (RLIMIT_FSIZE = 1, 7, 16, half, all-but-one byte of the "
         "new content) so that the content write genuinely comes back short, and once per cap (1, 7, 16 bytes) with every write() "
         "transferring at most that many bytes but succeeding. Oracle: the preload file afterwards holds exactly the old or exactly the "
-        "new content (absent counts as old when it was absent). non-trivial = crash/fault point at or after the first call that "
+        "new content (absent counts as old when it was absent). Beyond single runs: every call of the window failing with EIO/EINTR (plus "
+        "call-specific errnos: EBUSY/EXDEV/EPERM on rename, EACCES/EMFILE on open, early end of file on read); histories (a run killed at a window "
+        "call, the file then replaced by other content, a later run must produce exactly what it produces without that history); and two "
+        "overlapping runs (the first held by a tracer delay on entry to its rename, the second killed at write-type calls or running to its end). non-trivial = crash/fault point at or after the first call that "
         "touches the preload file or its temporary sibling; distinct by (content, op, call index, fault)")
 
 FIXED = [None, b"", preload.PH + b"\n", b"/usr/lib/a.so\n", b"/usr/lib/a.so\n" + preload.PH + b"\n/usr/lib/b.so\n",
@@ -29,6 +32,12 @@ FIXED = [None, b"", preload.PH + b"\n", b"/usr/lib/a.so\n", b"/usr/lib/a.so\n" +
 WRITE_CALLS = {"write", "pwrite64", "writev", "fsync", "fdatasync", "ftruncate", "fchmod", "fchown", "rename", "renameat", "renameat2",
                "close", "unlink", "unlinkat", "openat", "open", "creat", "link", "linkat"}
 ERRNOS = ["ENOSPC", "EIO", "EDQUOT"]
+# every call of the window can fail, not only the writing ones: what a failing read / stat / rename must never do is make the
+# command carry on with half the information and still replace the file
+ANY_ERRNOS = ["EIO", "EINTR"]
+EXTRA_ERRNOS = {"rename": ["EBUSY", "EXDEV", "EPERM"], "renameat": ["EBUSY", "EXDEV", "EPERM"], "renameat2": ["EBUSY", "EXDEV", "EPERM"],
+                "openat": ["EACCES", "EMFILE"], "open": ["EACCES", "EMFILE"], "unlink": ["EBUSY"], "unlinkat": ["EBUSY"],
+                "read": ["EAGAIN"], "pread64": ["EAGAIN"], "mmap": ["ENOMEM"], "brk": ["ENOMEM"]}
 LINE = re.compile(r"^([a-z_0-9]+)\((.*)$")
 
 
@@ -112,6 +121,55 @@ def capped_write_run(ctl, content, action, cap, old, new):
                       {"after": after, "stray": ctl.stray_files()}, {"old": old, "new": new}, key="partial-capped")
 
 
+RECOVER = [(b"", "enable"), (b"/usr/lib/a.so\n", "enable"), (preload.PH + b"\n", "disable"), (b"/usr/lib/a.so\n" + preload.PH + b"\n", "disable")]
+
+
+def recovery_run(ctl, content, action, inject, old, nxt, cache):
+    """History: a run is killed, the file is then changed by somebody else, a later run must behave as if the killed run had never
+    happened -- whatever the killed run left lying around."""
+    c2, a2 = nxt
+    if (c2, a2) not in cache:
+        ctl.put(ctl.subst(c2))
+        rc, _, _ = ctl.run(a2)
+        cache[(c2, a2)] = (rc, ctl.get())
+    ctl.put(old)
+    strace(ctl, action, inject=inject)
+    stray = ctl.stray_files()
+    ctl.put(ctl.subst(c2), keep_stray=True)
+    rc, _, _ = ctl.run(a2)
+    after = ctl.get()
+    ctl.put(None)
+    if (rc, after) != cache[(c2, a2)]:
+        raise Failure("after `%s` was killed (%s) and the file was then replaced, a later `%s` does not produce what it produces without that history" % (action, inject, a2),
+                      {"exit": rc, "after": after, "left_behind_by_killed_run": stray}, {"exit": cache[(c2, a2)][0], "after": cache[(c2, a2)][1]}, key="history")
+    return bool(stray)
+
+
+def pair_run(ctl, content, action, rename_name, kill_inject, old, new):
+    """Two runs overlap: A is held (tracer delay) on entry to its rename, B runs meanwhile and is killed at the given call (or runs to
+    the end when kill_inject is None).  Whatever happens to B, the file is the complete old or the complete new content."""
+    import time
+    ctl.put(old)
+    a = subprocess.Popen(["strace", "-qq", "-o", "/dev/null", "-e", "inject=%s:delay_enter=900000" % rename_name, ctl.ctl, action], env=ctl.env,
+                         stdin=subprocess.DEVNULL, stdout=subprocess.DEVNULL, stderr=subprocess.DEVNULL)
+    time.sleep(0.35)
+    if kill_inject:
+        strace(ctl, action, inject=kill_inject)
+    else:
+        subprocess.run([ctl.ctl, action], env=ctl.env, stdin=subprocess.DEVNULL, stdout=subprocess.DEVNULL, stderr=subprocess.DEVNULL, timeout=30)
+    mid = ctl.get()
+    try:
+        a.wait(timeout=30)
+    except subprocess.TimeoutExpired:
+        a.kill()
+    after = ctl.get()
+    for label, v in (("while the first run was still held before its rename", mid), ("after both runs ended", after)):
+        if not (v == old or v == new or (old is None and v is None)):
+            raise Failure("two overlapping `%s` runs (second one %s): preload file is neither the complete old nor the complete new content %s" % (
+                          action, "killed at " + kill_inject if kill_inject else "running to its end", label),
+                          {"content": v, "stray": ctl.stray_files()}, {"old": old, "new": new}, key="overlap")
+
+
 def plans_for(calls, first_touch, quick):
     """yield (inject expression, nontrivial, label)"""
     for i, (name, ordinal, text) in enumerate(calls):
@@ -121,9 +179,13 @@ def plans_for(calls, first_touch, quick):
         if quick and not nontriv and i % 4:
             continue            # before the file is first touched the outcome is trivially "old": sample these
         yield "%s:signal=KILL:when=%d" % (name, ordinal), nontriv, ("kill", i, name)
-        if nontriv and name in WRITE_CALLS:
-            for e in ERRNOS:
+        if nontriv:
+            errs = (ERRNOS if name in WRITE_CALLS else []) + ANY_ERRNOS + EXTRA_ERRNOS.get(name, [])
+            for e in errs:
                 yield "%s:error=%s:when=%d" % (name, e, ordinal), True, ("fault:" + e, i, name)
+            if name in ("read", "pread64"):
+                # end of file earlier than the size seen before (injected return values replace the call, so only 0 is faithful)
+                yield "%s:retval=0:when=%d" % (name, ordinal), True, ("early-eof", i, name)
 
 
 _W = {}
@@ -157,6 +219,43 @@ def worker(args):
                 if ok and not fails:
                     case["syscalls"] = len(calls)
                     fails.append({"case": case, "what": last.what, "observed": last.observed, "expected": last.expected})
+        # histories and overlapping runs (only where the run really rewrites the file)
+        if new != old and first_touch is not None:
+            window = [(i, c) for i, c in enumerate(calls) if i >= first_touch and c[0] not in ("exit_group", "exit")]
+            kills = window[::3] if ctx.quick else window
+            cache = _W.setdefault("recover-cache-%d" % idx, {})
+            for n, (i, (name, ordinal, text)) in enumerate(kills):
+                inject = "%s:signal=KILL:when=%d" % (name, ordinal)
+                nxt = RECOVER[(n + len(calls)) % len(RECOVER)]
+                case = {"content": content, "action": action, "inject": inject, "then": list(nxt)}
+                try:
+                    left = recovery_run(ctl, content, action, inject, old, nxt, cache)
+                    local.count((content, action, "history", i, nxt[1]) if left else None, [action, "history:killed-then-later-run"] + (["history:leftover-present"] if left else []), sample=case)
+                except Failure as f:
+                    local.count((content, action, "history", i), [action, "history:killed-then-later-run", "violating"], sample=case)
+                    if local.is_known(f.key):
+                        local.known_hit(f.key, f.what)
+                    elif not any(x["case"].get("then") for x in fails):
+                        ok, last = confirm(lambda c: recovery_run(ctl, c["content"], c["action"], c["inject"], old, tuple(c["then"]), cache), case)
+                        if ok:
+                            fails.append({"case": case, "what": last.what, "observed": last.observed, "expected": last.expected})
+            rn = [c[0] for _, c in window if c[0].startswith("rename")]
+            if rn:
+                wk = [(i, c) for i, c in window if c[0] in WRITE_CALLS]
+                picks = [None] + (wk[len(calls) % 3::5][:2] if ctx.quick else wk)
+                for pk in picks:
+                    inject = None if pk is None else "%s:signal=KILL:when=%d" % (pk[1][0], pk[1][1])
+                    case = {"content": content, "action": action, "overlap": rn[0], "kill": inject}
+                    local.count((content, action, "overlap", inject), [action, "overlap:two-runs"], sample=case)
+                    try:
+                        pair_run(ctl, content, action, rn[0], inject, old, new)
+                    except Failure as f:
+                        if local.is_known(f.key):
+                            local.known_hit(f.key, f.what)
+                        elif not any("overlap" in x["case"] for x in fails):
+                            ok, last = confirm(lambda c: pair_run(ctl, c["content"], c["action"], c["overlap"], c["kill"], old, new), case)
+                            if ok:
+                                fails.append({"case": case, "what": last.what, "observed": last.observed, "expected": last.expected})
         # short writes
         if new is not None and new != old:
             for limit in sorted({1, max(1, len(new) // 2), max(1, len(new) - 1), 7, 16}):
@@ -212,7 +311,11 @@ def main():
         ctx.count("replay-1", ["replay"], sample=case)
         ctx.nontrivial.add("replay-2")
         try:
-            if "write_cap" in case:
+            if "then" in case:
+                recovery_run(ctl, case["content"], case["action"], case["inject"], old, tuple(case["then"]), {})
+            elif "overlap" in case:
+                pair_run(ctl, case["content"], case["action"], case["overlap"], case["kill"], old, new)
+            elif "write_cap" in case:
                 capped_write_run(ctl, case["content"], case["action"], case["write_cap"], old, new)
             elif "short_limit" in case:
                 short_write_run(ctl, case["content"], case["action"], case["short_limit"], old, new)
